@@ -23,6 +23,8 @@ from vlib import Violation
 import evo
 
 FILES = vlib.BUILD / ("C07" + vlib.ALT_TAG)
+# keys of the checkpoint dictionary that load_checkpoint leaves behind as attributes of the agent: not agent state
+JUNK_ATTRS = {"agilerl_version", "wrapper_cls", "wrapper_init_dict", "wrapper_attrs"}
 _BLOCK_TYPE = __import__("re").compile(r"block_type='Conv[23]d'")
 
 
@@ -324,11 +326,12 @@ class C07(vlib.Driver):
             add("MATD3", "vector", False, "partial", 0, 11, ops=P("arch", "act", True, True, 0, True), hetero=True, ids="rev")
             add("MADDPG", "vector", False, "none", 0, 12, ops=P("param", "arch", False, False, 0, False), ids="rev")
             add("IPPO", "vector", False, "full", 0, 13, ops=P("arch", "none", False, True, 1, True), hetero=True)
-            for algo in ("RainbowDQN", "PPO", "CQN"):
+            for algo in ("DDPG", "PPO", "CQN"):      # (evo.RESNET_ALGOS; RainbowQNetwork takes no encoder_cls)
                 add(algo, "image", algo == "PPO", "resnet", 0, 14, ops=P("arch", "param", True, False, 0, False))
             for algo, fams in evo.CUSTOM_ALGOS.items():
                 for fam in fams:
-                    add(algo, fam, False, "custom", 0, 15, ops=P("act", "arch", False, True, 1, False))
+                    # (architecture mutations of the MakeEvolvable CNN can raise on the tiny 6x6 input, which is C03's subject)
+                    add(algo, fam, False, "custom", 0, 15, ops=P("act", "arch" if fam == "vector" else "param", False, True, 1, False))
                     add(algo, fam, False, "custom", 0, 16, ops=self.fresh_optimizer_ops())
         if only == "boundary":
             return cases
@@ -563,6 +566,8 @@ class C07(vlib.Driver):
                     # an operation of the training loop fails: only a finding of this property if the agent came out of a file
                     i = op[1]
                     path2 = self._origin(case, t, i)
+                    if path2 is None:
+                        break        # an agent that never came out of a file fails in the training loop: not this property's subject
                     out.append(Violation("resume", sig("resume-raises", path2 or "loop", k + "/" + cause),
                                          f"{what} raised {rec['error']} (agent #{i} {'was restored by ' + path2 if path2 else 'was never restored'})\n{rec.get('trace', '')}"))
                 break
@@ -664,7 +669,7 @@ class C07(vlib.Driver):
                 break
         # agilerl_version is a key of the checkpoint dictionary that load_checkpoint leaves behind as an attribute: not agent state
         d = {k: (v, cs["scalars"].get(k, "<missing>")) for k, v in ps["scalars"].items()
-             if k != "agilerl_version" and cs["scalars"].get(k, "<missing>") != v}
+             if k not in JUNK_ATTRS and cs["scalars"].get(k, "<missing>") != v}
         if d:
             out.append(Violation("restore", sig("restore", path, "scalar"), f"{what}: scalar attributes differ (saved, restored): {d}"))
         if ps["hps"] != cs["hps"]:
